@@ -35,7 +35,7 @@ const MIN_SOLVED: f64 = 0.995;
 const CONIC_LP_NMAX: usize = 10;
 
 #[derive(Clone)]
-struct Prob {
+pub struct Prob {
     n: usize,
     P: Vec<Vec<f64>>, // dense symmetric
     q: Vec<f64>,
@@ -187,7 +187,7 @@ fn family_cones(rng: &mut Rng, budget: usize) -> Vec<SupportedConeT<f64>> {
 }
 
 /// member of family G: planted strictly feasible primal and dual points
-fn gen_g(seed: u64, size: usize) -> Prob {
+pub fn gen_g(seed: u64, size: usize) -> Prob {
     gen_g_ext(seed, size, CONIC_LP_NMAX)
 }
 fn gen_g_ext(seed: u64, size: usize, conic_lp_nmax: usize) -> Prob {
@@ -337,7 +337,7 @@ fn csc_from_dense(d: &[Vec<f64>], m: usize, n: usize, triu: bool) -> CscMatrix<f
 }
 
 
-fn build(pr: &Prob) -> DefaultSolver<f64> {
+pub fn build(pr: &Prob) -> DefaultSolver<f64> {
     let m = pr.b.len();
     let P = csc_from_dense(&pr.P, pr.n, pr.n, true);
     let A = csc_from_dense(&pr.A, m, pr.n, false);
